@@ -95,6 +95,17 @@ CHECKS = {
         note="Outside: reordering the volume blocks of the phonon file (qha + scipy interpolators cannot be executed symbolically), "
              "permutations moving static row 0 (needs the affine-invariance argument for the Eulerian strain), rounding.",
         design="3/C13"),
+    "C12": dict(
+        engine="fp-kernels (cvc5) + symnum",
+        technique="AST -> QF_FP translation of the Bose-factor kernels (exp axiomatised), decided by cvc5; symbolic pipeline for "
+                  "T=0 masking and absence of undefined values; concrete dtype check of the eigen-frame",
+        text="Partial: in IEEE binary64 semantics cvc5 shows no finite (omega in [30,1500] cm^-1, T in [0.01,3000] K) makes Q, Q1 or Q2 "
+             "NaN/inf and that Q1, Q2 vanish (<=1e-290) above the exp overflow threshold; symbolically no 0/0 or x/0 survives into any "
+             "assembled component and the T=0 row carries no thermal term.",
+        note="The configuration sweep 'every schema-valid configuration x interpolator completes' is library behaviour (qha, scipy, LAPACK) "
+             "and outside; numpy.exp is modelled by the listed axioms (each a true fact of a faithful exp); eigen-frame real-ness is a "
+             "concrete check over the 15 keys.",
+        design="3/C12"),
 }
 
 NOT_APPLICABLE = {
